@@ -472,15 +472,6 @@ func claimableTable() string {
 	if fd == nil || fd.Body == nil {
 		die("claimable: func (t *Task) IsClaimable not found")
 	}
-	var ret ast.Expr
-	for _, st := range fd.Body.List {
-		if r, ok := st.(*ast.ReturnStmt); ok && len(r.Results) == 1 {
-			ret = r.Results[0]
-		}
-	}
-	if ret == nil {
-		die("claimable: IsClaimable has no single-expression return")
-	}
 	states := []string{"STANDBY", "CONFIGURED", "RUNNING", "ERROR", "OTHER"}
 	codes := []int{0, 1, 2, 3, 9}
 	var eval func(e ast.Expr, locked, active bool, state string) bool
@@ -531,11 +522,52 @@ func claimableTable() string {
 		die("claimable: expression form not understood in IsClaimable")
 		return false
 	}
+	// the body as a sequence of guards: `if cond { return e1 }` ... `return e2` (boolean literals allowed)
+	var evalE func(e ast.Expr, locked, active bool, state string) bool
+	evalE = func(e ast.Expr, locked, active bool, state string) bool {
+		if id, ok := e.(*ast.Ident); ok && (id.Name == "true" || id.Name == "false") {
+			return id.Name == "true"
+		}
+		return eval(e, locked, active, state)
+	}
+	var run func(stmts []ast.Stmt, locked, active bool, state string) (bool, bool)
+	run = func(stmts []ast.Stmt, locked, active bool, state string) (bool, bool) {
+		for _, st := range stmts {
+			switch v := st.(type) {
+			case *ast.ReturnStmt:
+				if len(v.Results) != 1 {
+					die("claimable: return with %d results", len(v.Results))
+				}
+				return evalE(v.Results[0], locked, active, state), true
+			case *ast.IfStmt:
+				if v.Init != nil {
+					die("claimable: if with an init statement")
+				}
+				if evalE(v.Cond, locked, active, state) {
+					if r, done := run(v.Body.List, locked, active, state); done {
+						return r, true
+					}
+				} else if eb, ok := v.Else.(*ast.BlockStmt); ok {
+					if r, done := run(eb.List, locked, active, state); done {
+						return r, true
+					}
+				}
+			case *ast.ExprStmt, *ast.DeferStmt: // t.mu.RLock() / defer t.mu.RUnlock()
+			default:
+				die("claimable: statement form not understood in IsClaimable")
+			}
+		}
+		return false, false
+	}
 	var items []string
 	for _, locked := range []bool{false, true} {
 		for _, active := range []bool{false, true} {
 			for i, st := range states {
-				items = append(items, fmt.Sprintf("((%v, %v), %d, %v)", locked, active, codes[i], eval(ret, locked, active, st)))
+				res, done := run(fd.Body.List, locked, active, st)
+				if !done {
+					die("claimable: IsClaimable can fall off its end")
+				}
+				items = append(items, fmt.Sprintf("((%v, %v), %d, %v)", locked, active, codes[i], res))
 			}
 		}
 	}
